@@ -14,6 +14,7 @@ var ZZEntries = map[string]func([]int){
 	"HInt":     func(a []int) { HInt(a[0]) },
 	"HLength":  func(a []int) { HLength(a[0]) },
 	"HString":  func(a []int) { HString(a[0]) },
+	"HStringRunes": func(a []int) { HStringRunes(a[0], a[1], a[2]) },
 	"HUnique":  func(a []int) { HUnique(a[0], a[1]) },
 	"HFloatNo": func(a []int) {},
 }
@@ -104,6 +105,58 @@ func HString(n int) {
 		zz.Assert(want, "validate.String accepts only strings whose code-point count is within minLength/maxLength")
 	} else {
 		zz.Assert(zz.Not(want), "validate.String refuses only strings whose code-point count is outside minLength/maxLength")
+	}
+}
+
+// symRune: one code point spelled with k bytes (k = 1..4), payload bits symbolic within the ranges that are
+// valid UTF-8 without overlong or surrogate forms.
+func symRune(k int) []byte {
+	cont := func() byte {
+		c := zz.Byte()
+		zz.Assume(zz.And(c >= 0x80, c <= 0xBF))
+		return c
+	}
+	lead := zz.Byte()
+	switch k {
+	case 1:
+		zz.Assume(zz.And(lead >= 0x20, lead <= 0x7e))
+		return []byte{lead}
+	case 2:
+		zz.Assume(zz.And(lead >= 0xC2, lead <= 0xDF))
+		return []byte{lead, cont()}
+	case 3:
+		zz.Assume(zz.And(lead >= 0xE1, lead <= 0xEC))
+		return []byte{lead, cont(), cont()}
+	default:
+		zz.Assume(zz.And(lead >= 0xF1, lead <= 0xF3))
+		return []byte{lead, cont(), cont(), cont()}
+	}
+}
+
+// HStringRunes: a string of nr code points - the first nr/2 spelled with c1 bytes each, the others with c2
+// bytes each - against fully symbolic minLength / maxLength (0..30) and set flags: lengths are counted in
+// code points, whatever the byte length.
+func HStringRunes(nr, c1, c2 int) {
+	var b []byte
+	for i := 0; i < nr; i++ {
+		if i < nr/2 {
+			b = append(b, symRune(c1)...)
+		} else {
+			b = append(b, symRune(c2)...)
+		}
+	}
+	s := string(b)
+	minSet, maxSet := zz.Bool(), zz.Bool()
+	mn, mx := zz.Int(), zz.Int()
+	zz.Assume(zz.And(zz.And(mn >= 0, mn <= 30), zz.And(mx >= 0, mx <= 30)))
+	t := String{MinLength: mn, MinLengthSet: minSet, MaxLength: mx, MaxLengthSet: maxSet}
+	err := t.Validate(s)
+	zz.Cover("rune-string-validated")
+	want := zz.And(zz.Or(!minSet, nr >= mn), zz.Or(!maxSet, nr <= mx))
+	if err == nil {
+		zz.Assert(want, "validate.String accepts only strings whose code-point count is within minLength/maxLength (multi-byte code points)")
+	} else {
+		zz.Assert(zz.Not(want), "validate.String refuses only strings whose code-point count is outside minLength/maxLength (multi-byte code points)")
 	}
 }
 
